@@ -115,7 +115,7 @@ class CHECK(Check):
         for sql in DML:
             out.append(('dml', sql, None))
         m = self.m
-        sents = set(self.fam.s0_pairs()) | set(self.fam.s0_edges())
+        sents = set(self.fam.s0_pairs()) | set(self.fam.s0_edges()) | set(self.fam.s0_sibling_pairs())
         for s in sorted(sents):
             if s[0] not in ('SELECT', 'LPAREN', 'WITH', 'INSERT', 'UPDATE', 'DELETE', 'CREATE') or any(t not in m.lexeme for t in s) or not m.simulate(s)[0]:
                 continue
